@@ -1,12 +1,13 @@
 (* C05, W-band LO part (code with fixes/26 applied) — register catalogue: the six registers
    freq PolH/PolV, att PolH/PolV, Ref H/V; write `<set name>=<tok>`, always acknowledged with
    ACK CR LF; the stored value is float(tok) when it parses, else the text without its last
-   character.  PARTIAL: the write semantics and the independence of the registers are proved; the
-   theorem over arbitrary interleaved histories (as for the solar attenuator / generic LO) is not —
-   covered by the correspondence and the implementation-level oracle only.  Statements only. *)
-From DS Require Import Base.Prelude Model.SmbCommon Model.SmbWLO Proofs.SmbCommon Proofs.SmbWLO.
+   character; read `<get name>` CR; encoding `<value>MHz` / `<value>dB` / `<Capitalized>.` CR LF.
+   [fl], [cap] are the oracles for float()/repr and str.capitalize().  Statements only. *)
+From DS Require Import Base.Prelude Model.SmbCommon Model.SmbWLO Proofs.SmbCommon Proofs.SmbWLO
+  Proofs.SmbWLOHist.
 
-Theorem C05_wlo_write_partial : forall fl cap d r tok, plain_token tok ->
+(* for EVERY parameter text without ';' and '=' *)
+Theorem C05_wlo_write : forall fl cap d r tok, plain_token tok ->
   w_exec fl cap d (w_write r tok) =
     match fl tok with
     | WFloat rp => (wset d r (WF rp), OReply (ACK ++ CRLF))
@@ -14,17 +15,51 @@ Theorem C05_wlo_write_partial : forall fl cap d r tok, plain_token tok ->
     | WMissing => (d, ONoOracle)
     end.
 Proof. exact w_write_exec. Qed.
-Print Assumptions C05_wlo_write_partial.
+Print Assumptions C05_wlo_write.
 
-Theorem C05_wlo_written_value : forall d r v, wget (wset d r v) r = v.
-Proof. exact wget_wset_same. Qed.
-Print Assumptions C05_wlo_written_value.
+(* acknowledged write to register r, ANY history of lines in which no command is `<set name of r>=...`
+   (writes to the other five registers, all getters, enable/disable, unknown commands, garbage,
+   lines that raise), then the read-back of r: the written value in the protocol's encoding *)
+Theorem C05_wlo_readback : forall fl cap d r tok v ls a, plain_token tok -> w_value fl tok = Some v ->
+  Forall (fun l => w_line_writes r l = false) ls -> w_render cap r v = Some a ->
+  let d2 := fst (exec_lines (w_exec fl cap) (fst (w_exec fl cap d (w_write r tok))) ls) in
+  w_exec fl cap d2 (w_read r) = (d2, OReply a).
+Proof. exact w_readback. Qed.
+Print Assumptions C05_wlo_readback.
+
+(* the same on the byte stream from any idle parser state *)
+Theorem C05_wlo_readback_bytes : forall fl cap s r tok v ls a, w_idle s = true -> plain_token tok ->
+  ~ In LF tok -> w_value fl tok = Some v -> Forall no_lf ls ->
+  Forall (fun l => w_line_writes r l = false) ls -> w_render cap r v = Some a ->
+  exists s' mid,
+    w_run fl cap s (lines_bytes (w_write r tok :: ls) ++ w_read r ++ [LF]) =
+      (s', line_outs (w_write r tok) (OReply (ACK ++ CRLF)) ++ mid ++ line_outs (w_read r) (OReply a)).
+Proof. exact w_readback_bytes. Qed.
+Print Assumptions C05_wlo_readback_bytes.
+
+(* frame: a line without a set command of r leaves r alone, whatever else it does *)
+Theorem C05_wlo_frame : forall fl cap r cmds d items, existsb (w_cmd_writes r) cmds = false ->
+  wget (fst (w_cmds fl cap d items cmds)) r = wget d r.
+Proof. exact w_cmds_frame. Qed.
+Print Assumptions C05_wlo_frame.
+
+(* refused: a line answered `True` (nothing recognised) leaves the whole device unchanged.  (The
+   protocol has no NACK: every recognised set is acknowledged.  A line that raises after earlier
+   commands were executed is the known finding wlo_partial_line_exception.) *)
+Theorem C05_wlo_silent_unchanged : forall fl cap d l d', w_exec fl cap d l = (d', OTrue) -> d' = d.
+Proof. exact w_silent_unchanged. Qed.
+Print Assumptions C05_wlo_silent_unchanged.
 
 Theorem C05_wlo_other_registers_untouched : forall d r r' v, r <> r' -> wget (wset d r v) r' = wget d r'.
 Proof. exact wget_wset_other. Qed.
 Print Assumptions C05_wlo_other_registers_untouched.
 
-(* immediate read-back of a numeric write: repr(float(tok)) and the unit *)
+Example C05_wlo_ex_hyp : plain_token [49; 50; 46; 50; 51; 13] /\ w_line_writes RFH (w_write RFV [53; 13]) = false
+  /\ w_line_writes RFH (w_write RFH [53; 13]) = true /\ w_line_writes RFH (w_read RFH) = false.
+Proof.
+  split; [|repeat split; reflexivity].
+  intros x [<-|[<-|[<-|[<-|[<-|[<-|[]]]]]]]; split; discriminate.
+Qed.
 Example C05_wlo_ex :
   let fl := wfl_of_table [([49; 50; 46; 50; 51; 13], WFloat [49; 50; 46; 50; 51])] in
   snd (w_run fl (fun s => Some s) w_start (lines_bytes [w_write RFH [49; 50; 46; 50; 51; 13]; w_read RFH])) =
